@@ -298,6 +298,8 @@ theorem applyRes_neutral (cfg : Cfg) (pol : Policy) (step : Nat) (tickEv : Ev) (
   | addCollected buf ev =>
     simp only [applyRes]
     split
+    · exact h
+    split
     · apply neutral_of
       intro c hc; simp only [List.mem_singleton] at hc; subst hc
       exact ⟨by intro s i o w; simp, by intro s i o w; simp⟩
